@@ -61,6 +61,20 @@ func C16(c *Ctx, r *report.Run) error {
 			jobs = append(jobs, job{s, l, i})
 		}
 	}
+	// the parameter family: every plugin with parameter strings it may or may not understand (unknown keys, bad values of known
+	// keys, the standard protogen keys with bogus values, empty items) on the core units - an answer (files or an error) is due
+	base := len(c16Configs)
+	for _, plugin := range []string{"protoc-gen-go-http", "protoc-gen-go-client", "protoc-gen-ts-client", "protoc-gen-ts-server", "protoc-gen-openapiv3"} {
+		for _, prm := range []string{"paths=bogus", "unknown_param=1", "format=xml", "generate_mock=maybe", "module=does/not/match", "paths=source_relative,,format=json", "=", "Mmissing.proto=x/y", "format"} {
+			c16Configs = append(c16Configs, struct{ Plugin, Param string }{plugin, prm})
+		}
+	}
+	for _, s := range univ.CoreSpecs() {
+		l := mustLower(s)
+		for i := base; i < len(c16Configs); i++ {
+			jobs = append(jobs, job{s, l, i})
+		}
+	}
 	var mu sync.Mutex
 	var walls []float64
 	Par(len(jobs), c.Workers, func(i int) {
